@@ -1,4 +1,4 @@
-# translator: constants, Modulation enum and soft-bit tables of data_msg.py / gsm_shared.py
+# translator: constants, Modulation enum and soft-bit tables of data_msg.py / gsm_shared.py, capture tags of data_dump.py
 #             -> OsmoVerif/Gen/TrxdConsts.lean   (values as held by the interpreter, current tree)
 import json, os
 from lib import vf
@@ -8,6 +8,7 @@ import sys, json
 sys.path.insert(0, sys.argv[1])
 import data_msg as d
 import gsm_shared as g
+import data_dump as dd
 mods = list(d.Modulation)
 tx, rx = d.TxMsg(), d.RxMsg()
 def hdr_len(cls):
@@ -41,6 +42,9 @@ print(json.dumps({
     "tabSbit2usbit": list(d.Msg._tab_sbit2usbit),
     "tabSbit2ubit": list(d.Msg._tab_sbit2ubit),
     "tabUbit2sbit": list(d.Msg._tab_ubit2sbit),
+    "dumpTagTx": list(dd.DATADump.TAG_TxMsg),
+    "dumpTagRx": list(dd.DATADump.TAG_RxMsg),
+    "dumpHdrLength": dd.DATADump.HDR_LENGTH,
 }))
 '''
 
@@ -101,6 +105,10 @@ def generate(run):
     A("def tabSbit2usbit : List Nat := %s" % vf.lean_nat_list(c["tabSbit2usbit"]))
     A("def tabSbit2ubit : List Nat := %s" % vf.lean_nat_list(c["tabSbit2ubit"]))
     A("def tabUbit2sbit : List Int := %s" % vf.lean_int_list(c["tabUbit2sbit"]))
+    A("/-- `DATADump.TAG_TxMsg`, `TAG_RxMsg` (octets of the bytes objects), `HDR_LENGTH` (data_dump.py) -/")
+    A("def dumpTagTx : List Nat := %s" % vf.lean_nat_list(c["dumpTagTx"]))
+    A("def dumpTagRx : List Nat := %s" % vf.lean_nat_list(c["dumpTagRx"]))
+    A("def dumpHdrLength : Nat := %d" % c["dumpHdrLength"])
     A("end OsmoVerif.Gen.Trxd")
     vf.write_if_changed(os.path.join(vf.LEAN, "OsmoVerif/Gen/TrxdConsts.lean"), "\n".join(L) + "\n")
     return c
